@@ -6,10 +6,9 @@
 ROOT="$(cd "$(dirname "$(readlink -f "$0")")/.." && pwd)"; cd "$ROOT" || exit 2
 REPO="${VP_RUN_REPO:-/repo}"
 if [ "$REPO" != "/repo" ]; then sed -i "s#\"/repo\"#\"$REPO\"#" harness/Cargo.toml tsan/Cargo.toml sentinel/Cargo.toml; fi
-OUT=seeded/RESULTS_ALL.txt; : > $OUT
+OUT=${RERUN_OUT:-seeded/RESULTS_ALL.txt}; : > $OUT
 cp -r evidence work_evidence_keep 2>/dev/null
 LIST="${@:-$(ls -d seeded/C*/ | xargs -n1 basename)}"
-OUT=${RERUN_OUT:-$OUT}; : > $OUT
 for tag in $LIST; do
   d=seeded/$tag; prop=${tag:0:3}
   git -C "$REPO" checkout -q -- . 
